@@ -1265,15 +1265,17 @@ def check_c20(out, tier, seed):
     for cid, (clauses, _) in sorted(rejects.items()):
         c, info = res[cid]
         _, lvl, mode, val = jobs[cid]
-        # one violation per (clauses, kind of value, tag mode, what was observed); numeric arrays of
-        # integers differ only in their elements, strings and floats are kept apart by value
+        # one violation per (clauses, kind of value, tag mode, what was observed); the values of a
+        # group are listed with it
         kind = val["v"]["k"] + "/" + val["v"]["el"]
-        ident = kind if val["v"]["el"] == "int" else json.dumps(val["py"])
+        ident = kind
         pattern = (c["set"], c["vf"], c["val"], c["w"], c["s"], c["mark"], c["rb"]["res"], c["rb"]["eq"], c["rb"]["eqv"])
         key = (",".join(clauses), ident, mode, pattern)
-        g = groups.setdefault(key, dict(levels=set(), n=0, ex=None))
+        g = groups.setdefault(key, dict(levels=set(), n=0, ex=None, values=set()))
         g["levels"].add(lvl)
         g["n"] += 1
+        if len(g["values"]) < 12:
+            g["values"].add(json.dumps(val["py"]))
         if g["ex"] is None:
             g["ex"] = (cid, c, info)
     for key, g in sorted(groups.items(), key=lambda kv: (kv[0][0], kv[0][1], kv[0][2], str(kv[0][3]))):
@@ -1284,7 +1286,7 @@ def check_c20(out, tier, seed):
         out.violations.append(dict(
             family=FAM, kind="val", clauses=key[0].split(","), input="value=%s tag=%s" % (pyv, key[2]),
             api="Line.set/get_datatype/validate/field_to_s/str + Line(str)", levels=sorted(g["levels"]),
-            occurrences=g["n"],
+            occurrences=g["n"], values_like_this=sorted(g["values"]),
             case=dict(lvl=jobs[cid][1], mode=key[2], val=jobs[cid][3]), observed=obs, exc=info["exc"],
             what="%s: xx(%s) = %s at vlevel %s (%d cases like this) -> %s %s" % (
                 key[0], key[2], pyv, sorted(g["levels"]), g["n"], json.dumps(obs), [e for e in info["exc"] if e])))
